@@ -599,6 +599,335 @@ fn run_case(c: &Case) -> (String, Option<String>) {
     }
 }
 
+
+// ---------------------------------------------------------------------------------------------
+// Growing / shrinking owned tensors: has_capacity, append, clip_dim.
+//
+// Request: `a ovf=<0|1> k=<dyn|nd> shape=.. strides=<..|n> len=<n> cap=<n> ops=<op;op;..>`
+// ops: `hc:axis,new_size` has_capacity · `ap:axis/<other shape>` append of a zero-stride view
+// with that shape · `cl:dim,start,end` clip_dim.
+// Answer: `ok st=<strides> | <op answers>`; op answers `1`/`0`, `ok[shape]dl=<storage len>`,
+// `err:shape`, `err:cap`, `noother` (the other tensor itself is not constructible), `panic`.
+// Oracle after every op (also after a panicking one): the storage pointer is unchanged, the
+// storage length is within the capacity, and every valid index maps to a distinct element
+// inside the storage.
+
+#[derive(Clone, Debug)]
+enum Op {
+    HasCap(usize, usize),
+    Append(usize, Vec<usize>),
+    Clip(usize, usize, usize),
+}
+
+#[derive(Clone, Debug)]
+struct GCase {
+    ovf: bool,
+    nd: bool,
+    shape: Vec<usize>,
+    strides: Option<Vec<usize>>,
+    len: usize,
+    cap: usize,
+    ops: Vec<Op>,
+}
+
+fn fmt_gcase(c: &GCase) -> String {
+    let ops: Vec<String> = c
+        .ops
+        .iter()
+        .map(|o| match o {
+            Op::HasCap(a, n) => format!("hc:{a},{n}"),
+            Op::Append(a, sh) => format!("ap:{a}/{}", list(sh)),
+            Op::Clip(d, s, e) => format!("cl:{d},{s},{e}"),
+        })
+        .collect();
+    format!(
+        "a ovf={} k={} shape={} strides={} len={} cap={} ops={}",
+        c.ovf as u8,
+        if c.nd { "nd" } else { "dyn" },
+        list(&c.shape),
+        match &c.strides {
+            Some(s) => list(s),
+            None => "n".into(),
+        },
+        c.len,
+        c.cap,
+        if ops.is_empty() { "-".to_string() } else { ops.join(";") }
+    )
+}
+
+fn parse_gcase(line: &str) -> GCase {
+    let mut c = GCase { ovf: false, nd: false, shape: vec![], strides: None, len: 0, cap: 0, ops: vec![] };
+    for w in line.split(' ') {
+        let Some((k, v)) = w.split_once('=') else { continue };
+        match k {
+            "ovf" => c.ovf = v == "1",
+            "k" => c.nd = v == "nd",
+            "shape" => c.shape = parse_list(v),
+            "strides" => c.strides = if v == "n" { None } else { Some(parse_list(v)) },
+            "len" => c.len = v.parse().unwrap(),
+            "cap" => c.cap = v.parse().unwrap(),
+            "ops" => {
+                if v != "-" {
+                    for o in v.split(';') {
+                        let (kind, arg) = o.split_once(':').unwrap();
+                        c.ops.push(match kind {
+                            "hc" => {
+                                let a = parse_list(arg);
+                                Op::HasCap(a[0], a[1])
+                            }
+                            "ap" => {
+                                let (ax, sh) = arg.split_once('/').unwrap();
+                                Op::Append(ax.parse().unwrap(), parse_list(sh))
+                            }
+                            _ => {
+                                let a = parse_list(arg);
+                                Op::Clip(a[0], a[1], a[2])
+                            }
+                        });
+                    }
+                }
+            }
+            _ => {}
+        }
+    }
+    c
+}
+
+macro_rules! gen_grow_runner {
+    ($name:ident, $L:ty, $cv:ident) => {
+        #[allow(unused_mut, unused_variables)]
+        fn $name<const N: usize>(c: &GCase) -> (String, Option<String>) {
+            let mut fail = Fail(None);
+            let mut v: Vec<u32> = Vec::with_capacity(c.cap);
+            v.extend(0..c.len as u32);
+            if v.capacity() != c.cap {
+                return ("capacity-differs".into(), None);
+            }
+            let base = v.as_ptr() as usize;
+            let shape = c.shape.clone();
+            let strides = c.strides.clone().unwrap_or_default();
+            let built = hcommon::catch(|| match &c.strides {
+                None => TensorBase::<Vec<u32>, $L>::try_from_data($cv!(shape), v),
+                Some(_) => TensorBase::<Vec<u32>, $L>::from_data_with_strides($cv!(shape), v, $cv!(strides)),
+            });
+            let mut t = match built {
+                Err(_) => return ("panic".into(), None),
+                Ok(Err(e)) => return (err_name(&e).into(), None),
+                Ok(Ok(t)) => t,
+            };
+            let st = sizes(&t.strides());
+            let mut answers: Vec<String> = vec![];
+            let one = [7u32];
+            for op in &c.ops {
+                let a = match op {
+                    Op::HasCap(axis, n) => match hcommon::catch(|| t.has_capacity(*axis, *n)) {
+                        Ok(b) => (b as u8).to_string(),
+                        Err(_) => "panic".into(),
+                    },
+                    Op::Append(axis, oshape) => {
+                        if c.nd && oshape.len() != N {
+                            "noother".into()
+                        } else {
+                            let zeros = vec![0usize; oshape.len()];
+                            match hcommon::catch(|| {
+                                TensorBase::<ViewData<u32>, $L>::from_slice_with_strides($cv!(oshape), &one[..], $cv!(zeros))
+                            }) {
+                                Ok(Ok(other)) => match hcommon::catch(|| t.append(*axis, &other)) {
+                                    Ok(Ok(())) => format!("ok[{}]dl={}", list(&sizes(&t.shape())), t.storage_mut().len()),
+                                    Ok(Err(rten_tensor::errors::ExpandError::ShapeMismatch)) => "err:shape".into(),
+                                    Ok(Err(rten_tensor::errors::ExpandError::InsufficientCapacity)) => "err:cap".into(),
+                                    Err(_) => "panic".into(),
+                                },
+                                _ => "noother".into(),
+                            }
+                        }
+                    }
+                    Op::Clip(d, s, e) => match hcommon::catch(|| t.clip_dim(*d, *s..*e)) {
+                        Ok(()) => format!("ok[{}]dl={}", list(&sizes(&t.shape())), t.storage_mut().len()),
+                        Err(_) => "panic".into(),
+                    },
+                };
+                // oracle on the tensor as it is now
+                let dl = t.storage_mut().len();
+                if t.data_ptr() as usize != base {
+                    fail.set(format!("after {:?}: storage pointer changed", op));
+                }
+                if dl > c.cap {
+                    fail.set(format!("after {:?}: storage length {dl} exceeds capacity {}", op, c.cap));
+                }
+                let cur = sizes(&t.shape());
+                if let Some(ix) = all_indices(&cur) {
+                    let region = Region { base, len: dl };
+                    let mut seen: HashSet<usize> = HashSet::new();
+                    for i in ix {
+                        match hcommon::catch(|| t.get_mut($cv!(i)).map(|r| r as *mut u32 as *const u32)) {
+                            Ok(Some(p)) => match region.locate(p) {
+                                Err(m) => fail.set(format!("after {:?}: index {:?}: {m}", op, i)),
+                                Ok(o) => {
+                                    if !seen.insert(o) {
+                                        fail.set(format!("after {:?}: two indices map to element {o}", op));
+                                    }
+                                }
+                            },
+                            Ok(None) => fail.set(format!("after {:?}: valid index {:?} rejected", op, i)),
+                            Err(_) => {}
+                        }
+                    }
+                } else {
+                    // too many indices to enumerate: probe the corners
+                    let last: Vec<usize> = cur.iter().map(|s| s.saturating_sub(1)).collect();
+                    if cur.iter().all(|s| *s > 0) {
+                        let region = Region { base, len: dl };
+                        if let Ok(Some(p)) = hcommon::catch(|| t.get_mut($cv!(last)).map(|r| r as *mut u32 as *const u32)) {
+                            if let Err(m) = region.locate(p) {
+                                fail.set(format!("after {:?}: index {:?}: {m}", op, last));
+                            }
+                        }
+                    }
+                }
+                answers.push(a);
+            }
+            (format!("ok st={} | {}", list(&st), answers.join(" ")), fail.0)
+        }
+    };
+}
+
+gen_grow_runner!(grow_dyn, DynLayout, cv_dyn);
+gen_grow_runner!(grow_nd, NdLayout<N>, cv_nd);
+
+fn run_gcase(c: &GCase) -> (String, Option<String>) {
+    let r = hcommon::catch(|| {
+        if !c.nd {
+            grow_dyn::<0>(c)
+        } else {
+            match c.shape.len() {
+                1 => grow_nd::<1>(c),
+                2 => grow_nd::<2>(c),
+                3 => grow_nd::<3>(c),
+                4 => grow_nd::<4>(c),
+                _ => ("skip".into(), None),
+            }
+        }
+    });
+    match r {
+        Ok(x) => x,
+        Err(m) => (format!("panic-outside {m}"), None),
+    }
+}
+
+/// Execute one request line of either kind.
+fn run_line(line: &str) -> (String, Option<String>) {
+    if line.starts_with("a ") {
+        run_gcase(&parse_gcase(line))
+    } else {
+        run_case(&parse_case(line))
+    }
+}
+
+fn gen_grow(rng: &mut Rng, ovf: bool, huge: bool) -> GCase {
+    let nd = rng.chance(1, 2);
+    let rank = 1 + rng.usize_below(3);
+    let full: Vec<usize> = (0..rank).map(|_| 1 + rng.usize_below(4)).collect();
+    let d = rng.usize_below(rank);
+    let mut shape = full.clone();
+    shape[d] = match rng.below(4) {
+        0 => 0,
+        1 => 1.min(full[d]),
+        _ => rng.usize_below(full[d] + 1),
+    };
+    let mut strides = contiguous(&full);
+    let mut use_strides = rng.chance(2, 3);
+    if rng.chance(1, 6) {
+        // a gap / permuted variant
+        let k = 1 + rng.usize_below(2);
+        for s in strides.iter_mut() {
+            *s *= k;
+        }
+        use_strides = true;
+    }
+    if huge {
+        use_strides = true;
+        // a stride that makes (new_size - 1) * stride wrap; only legal while size <= 1
+        shape[d] = rng.usize_below(2);
+        strides[d] = match rng.below(6) {
+            0 => TWO63,
+            1 => 1 << 62,
+            2 => (1 << 62) + 1,
+            3 => 1 << 61,
+            4 => usize::MAX / 3 + 1,
+            _ => huge_value(rng),
+        };
+    }
+    let len = wrapping_mdl(&shape, &strides).min(1 << 16);
+    let full_len = wrapping_mdl(&full, &strides).min(1 << 12);
+    let cap = match rng.below(4) {
+        0 => len,
+        1 => len + rng.usize_below(4),
+        _ => full_len.max(len) + rng.usize_below(3),
+    };
+    let mut ops = vec![];
+    let mut cur = shape.clone();
+    for _ in 0..1 + rng.usize_below(4) {
+        match rng.below(10) {
+            0 | 1 | 2 => {
+                let axis = if rng.chance(1, 10) && nd { rank } else { rng.usize_below(rank) };
+                let n = match rng.below(6) {
+                    0 => huge_value(rng),
+                    1 if huge => *rng.pick(&[3usize, 5, 9, 2, 4]),
+                    _ => rng.usize_below(7),
+                };
+                ops.push(Op::HasCap(axis, n));
+            }
+            3 | 4 => {
+                let dim = if rng.chance(1, 12) && nd { rank } else { rng.usize_below(rank) };
+                let size = cur.as_slice().get(dim).copied().unwrap_or(1).min(1 << 20);
+                let s = rng.usize_below(size + 1);
+                let e = if rng.chance(1, 8) { size + 1 } else { s + rng.usize_below(size - s + 1) };
+                ops.push(Op::Clip(dim, s, e));
+                if dim < rank && e <= size && s <= e {
+                    cur[dim] = e - s;
+                }
+            }
+            _ => {
+                let axis = if rng.chance(1, 12) && nd { rank } else if rng.chance(3, 4) { d } else { rng.usize_below(rank) };
+                let mut other = cur.clone();
+                let k = if huge { *rng.pick(&[2usize, 3, 4, 5, 8, 9, 1]) } else { rng.usize_below(4) };
+                if axis < rank {
+                    other[axis] = k;
+                }
+                match rng.below(16) {
+                    0 => {
+                        let j = rng.usize_below(rank);
+                        other[j] += 1;
+                    }
+                    1 if !nd => other.push(1),
+                    // (not for empty tensors: appending an empty tensor with a huge outer dim is
+                    // accepted and then spends ~forever in `copy_from` iterating empty rows)
+                    2 if axis < rank && !cur.iter().any(|&s| s == 0) => other[axis] = huge_value(rng),
+                    _ => {}
+                }
+                if axis < rank && other.len() == rank {
+                    cur[axis] = cur[axis].wrapping_add(other[axis]);
+                }
+                ops.push(Op::Append(axis, other));
+            }
+        }
+    }
+    GCase { ovf, nd, shape, strides: if use_strides { Some(strides) } else { None }, len, cap, ops }
+}
+
+fn gcase_danger(c: &GCase) -> bool {
+    const T: usize = 1 << 24;
+    let big = |v: &[usize]| v.iter().any(|&x| x > T);
+    big(&c.shape)
+        || c.strides.as_ref().map_or(false, |s| big(s))
+        || c.ops.iter().any(|o| match o {
+            Op::HasCap(_, n) => *n > T,
+            Op::Append(_, sh) => big(sh),
+            Op::Clip(_, s, e) => *s > T || *e > T,
+        })
+}
+
 /// Child process that executes requests read from stdin, one answer line each.
 struct Worker {
     child: Child,
@@ -644,8 +973,7 @@ fn child_main() {
     let stdout = std::io::stdout();
     for line in stdin.lock().lines() {
         let Ok(line) = line else { break };
-        let c = parse_case(&line);
-        let (ans, fail) = run_case(&c);
+        let (ans, fail) = run_line(&line);
         let mut o = stdout.lock();
         match fail {
             Some(m) => writeln!(o, "{ans}\tPROPFAIL {}", m.replace(['\n', '\t'], " ")).unwrap(),
@@ -1035,7 +1363,9 @@ fn main() {
         return;
     }
     let args = hcommon::parse_args();
-    hcommon::quiet_panics();
+    if std::env::var("C06_LOUD").is_err() {
+        hcommon::quiet_panics();
+    }
     let ovf = hcommon::catch(|| {
         let x = std::hint::black_box(usize::MAX);
         std::hint::black_box(x + std::hint::black_box(1))
@@ -1123,9 +1453,74 @@ fn main() {
         let nontrivial = class == "ok" && c.shape.len() >= 2 && c.shape.iter().all(|&s| s > 0) && c.shape.iter().any(|&s| s > 1) && !c.probes.is_empty();
         out.case(&req, &ans, fail.as_deref(), nontrivial);
     }
+    // growing / shrinking owned tensors
+    let mut gcases: Vec<GCase> = vec![];
+    for nd in [false, true] {
+        // the witness of C06.T3 for expanded_layout: an empty tensor with a huge stride grows
+        gcases.push(GCase {
+            ovf, nd, shape: vec![0, 2], strides: Some(vec![TWO63, 1]), len: 0, cap: 8,
+            ops: vec![Op::HasCap(0, 3), Op::Append(0, vec![3, 2])],
+        });
+        gcases.push(GCase {
+            ovf, nd, shape: vec![1, 2], strides: Some(vec![1 << 62, 1]), len: 2, cap: 8,
+            ops: vec![Op::HasCap(0, 5), Op::Append(0, vec![4, 2])],
+        });
+        gcases.push(GCase {
+            ovf, nd, shape: vec![2, 2], strides: None, len: 4, cap: 4,
+            ops: vec![Op::HasCap(0, TWO63 + 1), Op::HasCap(0, 2), Op::HasCap(0, 3)],
+        });
+    }
+    let (n_grow, n_grow_huge) = if args.thorough { (200_000, 40_000) } else { (20_000, 4_000) };
+    for _ in 0..n_grow {
+        gcases.push(gen_grow(&mut rng, ovf, false));
+    }
+    for _ in 0..n_grow_huge {
+        gcases.push(gen_grow(&mut rng, ovf, true));
+    }
+    for c in &gcases {
+        let req = fmt_gcase(c);
+        let danger = gcase_danger(c);
+        if std::env::var("C06_TRACE").is_ok() {
+            eprintln!("{req}");
+        }
+        let (ans, fail) = if danger {
+            let w = worker.get_or_insert_with(Worker::spawn);
+            match w.run(&req) {
+                Some(line) => match line.split_once("\tPROPFAIL ") {
+                    Some((a, m)) => (a.to_string(), Some(m.to_string())),
+                    None => (line, None),
+                },
+                None => {
+                    crashes += 1;
+                    worker.take().unwrap().kill();
+                    ("crash".to_string(), Some("the process executing this request died (crash/abort)".to_string()))
+                }
+            }
+        } else {
+            run_gcase(c)
+        };
+        out.bucket("grow_programs");
+        out.bucket(if danger { "huge_numbers(child process)" } else { "small_numbers(in process)" });
+        for o in &c.ops {
+            out.bucket(match o {
+                Op::HasCap(..) => "op_has_capacity",
+                Op::Append(..) => "op_append",
+                Op::Clip(..) => "op_clip_dim",
+            });
+        }
+        for a in ans.split(' ') {
+            if a.starts_with("ok[") {
+                out.bucket("grow_op_accepted");
+            } else if a.starts_with("err:") {
+                out.bucket(&format!("grow_op_{a}"));
+            }
+        }
+        let nontrivial = ans.contains("ok[");
+        out.case(&req, &ans, fail.as_deref(), nontrivial);
+    }
     if let Some(w) = worker {
         w.kill();
     }
     out.note(&format!("child-process crashes observed: {crashes}"));
-    out.finish("random API programs on rten-tensor: constructor (try_from_data, from_data, from_data_with_strides, from_slice_with_strides, from_storage_and_layout after resize_dim, from_shape; NdLayout rank 1-4 and DynLayout rank 0-4) with small shapes (contiguous, permuted, stepped, broadcast, perturbed, arbitrary strides; exact, short, long storage) and huge/overflowing shapes and strides (products wrapping to small numbers, (size-1)*stride wrapping, zero dims mixed with huge dims), followed by probes get/get_mut/Index/IndexMut (in and out of bounds), split_at(_mut), slice_axis(_mut), try_broadcast (incl. huge targets), iter(_mut); non-trivial = accepted, rank>=2, no empty dim, some dim>1, at least one probe; distinct by request text");
+    out.finish("random API programs on rten-tensor: constructor (try_from_data, from_data, from_data_with_strides, from_slice_with_strides, from_storage_and_layout after resize_dim, from_shape; NdLayout rank 1-4 and DynLayout rank 0-4) with small shapes (contiguous, permuted, stepped, broadcast, perturbed, arbitrary strides; exact, short, long storage) and huge/overflowing shapes and strides (products wrapping to small numbers, (size-1)*stride wrapping, zero dims mixed with huge dims), followed by probes get/get_mut/Index/IndexMut (in and out of bounds), split_at(_mut), slice_axis(_mut), try_broadcast (incl. huge targets), iter(_mut); plus programs on owned tensors with spare capacity (contiguous / gapped / huge-stride layouts with an empty or unit growth axis): has_capacity (small and huge sizes), append of zero-stride views (matching, mismatching, huge), clip_dim, with the no-alias / in-storage oracle re-evaluated after every operation including panicking ones; non-trivial = accepted, rank>=2, no empty dim, some dim>1, at least one probe; distinct by request text");
 }
